@@ -139,3 +139,5 @@ def check(ctx):
     unordered.check(ctx)
     nondet_api(ctx)
     cli_abspath(ctx)
+    from . import c09
+    c09.ambient(ctx)
